@@ -2,6 +2,7 @@ import Ogen.Props.C12
 import Ogen.Props.C07
 import Ogen.Props.C16
 import Ogen.DocLines_proof
+import Ogen.Listing_proof
 /-!
 # C11 — the generator is total (partial: the modelled components only)
 
@@ -62,5 +63,18 @@ example : DocLines.splitLine 10 [97, 97, 32, 98, 98, 98, 46, 99, 99, 99, 99, 32,
     [[97, 97, 32, 98, 98, 98, 46], [99, 99, 99, 99, 32, 100]] := by
   simp [DocLines.splitLine, DocLines.trim, DocLines.trimLeft, DocLines.isSp, DocLines.splitLoop, DocLines.lastBreak,
     DocLines.lastBreakGo, DocLines.isBreak]
+
+/-- the listing printed with a located diagnostic (`location.PrintHighlights`): the blank padding of every printed
+    line number is non-negative (`buf[:padding]` does not panic) … -/
+theorem listing_padding_nonneg (hi idx : Nat) (h : idx ≤ hi) : Listing.log10 (idx + 1) ≤ Listing.padNum hi :=
+  Listing.padding_nonneg hi idx h
+
+/-- … and fits the 32-byte buffer for every line index of a 64-bit `int` -/
+theorem listing_padding_fits (hi idx : Nat) (hhi : hi + 1 < 2 ^ 63) :
+    Listing.padNum hi - Listing.log10 (idx + 1) ≤ 32 := Listing.padding_fits_buffer hi idx hhi
+
+/-- before fix 769cc43e a listing that ends at line 1000 asked for `buf[:-1]` (witness) -/
+theorem listing_padding_negative_before_fix : Listing.padNumOld 999 < Listing.log10 (999 + 1) :=
+  Listing.padding_negative_before_fix
 
 end C11
